@@ -27,8 +27,8 @@ type C07Case struct {
 	HTmpl     string `json:"htmpl"` // recv-first | echo | send-first
 	Deadline  bool   `json:"deadline"`
 	TimeoutMs int64  `json:"timeout_ms"`
-	Header    bool   `json:"header"` // caller calls Header() after the cancellation
-	Unary     int    `json:"unary"`  // bystander unary calls
+	Header    bool   `json:"header"`  // caller calls Header() after the cancellation
+	Unary     int    `json:"unary"`   // bystander unary calls
 	Streams   int    `json:"streams"` // bystander ping-pong streams
 	Tape      []byte `json:"tape"`
 }
@@ -112,22 +112,22 @@ func (c C07Case) handlerProg() kit.HProg {
 }
 
 type c07Run struct {
-	steps       int
-	clog        *kit.CLog
-	hlog        *kit.HLog
-	post        []kit.ErrObs // results of the receives issued after the cancellation (data = Nil with Raw digest)
-	postData    [][]byte
-	sendAfter   kit.ErrObs
-	headerAfter bool // Header() returned
-	resetSeen   bool
+	steps               int
+	clog                *kit.CLog
+	hlog                *kit.HLog
+	post                []kit.ErrObs // results of the receives issued after the cancellation (data = Nil with Raw digest)
+	postData            [][]byte
+	sendAfter           kit.ErrObs
+	headerAfter         bool // Header() returned
+	resetSeen           bool
 	trailerBeforeCancel bool
-	byOK, byTotal int
-	tap         []kit.Ev
-	res         kit.RunResult
-	id          uint64
+	byOK, byTotal       int
+	tap                 []kit.Ev
+	res                 kit.RunResult
+	id                  uint64
 	handlerCtxDoneAfter bool
-	openErr     error
-	wire        []kit.StreamFacts
+	openErr             error
+	wire                []kit.StreamFacts
 }
 
 // runC07 executes the scenario with the cancellation placed after pos envelope deliveries.
